@@ -1,12 +1,17 @@
 /-
 C14 — layout and statement order do not change the output.
 
-No theorem closes this property yet (the chain layout_irrelevant → span_irrelevant →
-defn_order_irrelevant of DESIGN.md §3 C14 rests on the parser model of C05).  What is proved is the
-one step that does not need the parser: spans never influence the *meaning* the specification
-assigns — the automaton of the grammar's meaning is built from a span-free regular expression.
+The layout half (layout_irrelevant: two texts that differ in layout parse to trees that differ in
+spans only) rests on round-trip theorems of the parser model (C05) and is not closed.  Proved:
+`span_irrelevant_meaning` — spans never influence the *meaning* the specification assigns (the
+automaton of the grammar's meaning is built from a span-free regular expression);
+`meaning_order_irrelevant` — `Spec.meaning` is the same for every permutation of the statements that
+keeps the call variants in order, when no name is defined twice; `defn_order_irrelevant` — hence
+(through C02's `validation_is_meaning`) the model of check.rs returns the same validated expression
+for two such grammars whenever it accepts both — the same automaton and the same scripts.
 -/
 import Complgen.Spec.Den
+import Complgen.Proofs.Order
 namespace Complgen.Props.C14
 open Complgen Complgen.Spec
 
@@ -43,5 +48,19 @@ same expression with every source location erased coincide (for any span-blind n
 theorem span_irrelevant_meaning (e : Expr) :
     toSRx (fun _ => "?") e.eraseSpans = toSRx (fun _ => "?") e :=
   toSRx_eraseSpans _ (fun _ => rfl) e
+
+/-- **The meaning does not depend on the order of the statements** (call variants kept in order, no
+name defined twice for the shell / plainly — `Check.UniqueDefs`, which validation enforces:
+`Check.uniqueDefs_of_validate`). -/
+theorem meaning_order_irrelevant (sp : Span) (sh : Shell) (g g' : Grammar) (hp : g.Perm g')
+    (hu : Check.UniqueDefs sh g) (hc : callBodies g' = callBodies g) :
+    meaningAt sp g' sh = meaningAt sp g sh :=
+  Check.meaningAt_perm sp sh g g' hp hu hc
+
+/-- **Permuting the definitions does not change what the model of check.rs returns.** -/
+theorem defn_order_irrelevant (g g' : Grammar) (sh : Shell) (v v' : Check.Valid) (hp : g.Perm g')
+    (hc : Check.callsOf g' = Check.callsOf g) (h : Check.validate g sh = .ok v)
+    (h' : Check.validate g' sh = .ok v') : v'.expr = v.expr :=
+  Check.validate_perm g g' sh v v' hp hc h h'
 
 end Complgen.Props.C14
